@@ -875,6 +875,8 @@ def mk_cmp(op, a, b):
         return mk_not(('cmp', 'is', a, b))
     if op == 'notin':
         return mk_not(('cmp', 'in', a, b))
+    if op == '<=':
+        return ('not', ('cmp', '<', b, a))      # one order atom: a<=b is not (b<a), as in the integer normal form
     return ('cmp', op, a, b)
 
 
@@ -883,9 +885,9 @@ def mk_not(t):
         return C(not t[1])
     if t[0] == 'not':
         return t[1]
-    if t[0] == 'cmp' and t[1] in ('<', '<='):
-        # not (a<b)  ==  b<=a   (total orders only: crysp compares ints)
-        return mk_cmp('<=' if t[1] == '<' else '<', t[3], t[2])
+    if t[0] == 'cmp' and t[1] == '<=':
+        # not (a<=b)  ==  b<a   (total orders only: crysp compares ints)
+        return mk_cmp('<', t[3], t[2])
     if t[0] in ('and', 'or'):
         # De Morgan (exact, also as values: both sides yield a bool decided by the same operand in the same order)
         return mk_bool('or' if t[0] == 'and' else 'and', [mk_not(x) for x in t[1]])
@@ -1271,6 +1273,7 @@ class PE:
         self.nloops = 0
         self.aliases = {}          # local name -> (attribute path, place AST): the name is a view of that place
         self.inplace_updated = set()
+        self.loop_stack = []       # (loop id, environment at the start of the body, names the body assigns) of the loops being summarised
         self.loop_W = {}           # (loop id, rank) -> (attributes the loop stores on that carried object, its initial term)
         self.branch_depth = 0
         self.ntry = 0
@@ -1599,18 +1602,23 @@ class PE:
     # -- calls ----------------------------------------------------------------
     def ev_Call(self, n, env):
         # mutator methods on places
-        if isinstance(n.func, ast.Attribute) and n.func.attr in MUTATORS and self.is_place(n.func.value):
+        if isinstance(n.func, ast.Attribute) and n.func.attr in MUTATORS and self.is_place(n.func.value) \
+                and not (isinstance(n.func.value, ast.Name) and n.func.value.id not in env
+                         and self.ev(n.func.value, env)[0] in ('g', 'b')):      # operator.add(..) is not a set being mutated
             args = [self.ev(a, env) for a in n.args]
             if not n.keywords and not any(a[0] == 'star' for a in args):
                 r = self.mutate(n.func.value, n.func.attr, args, env)
                 if r is not None:
                     return r
-        f = self.ev(n.func, env)
-        if isinstance(n.func, ast.Attribute) and f[0] == 'attr' and f[2] == n.func.attr:
+        fnode = n.func
+        if isinstance(fnode, ast.Name) and fnode.id in self.aliases and isinstance(self.aliases[fnode.id][1], ast.Attribute):
+            fnode = self.aliases[fnode.id][1]        # m = self.method ; m(x)  is  self.method(x)
+        f = self.ev(fnode, env)
+        if isinstance(fnode, ast.Attribute) and f[0] == 'attr' and f[2] == fnode.attr:
             # a method is called on the object as it is NOW: attribute / item stores made so far stay with the receiver
-            recv = self.ev(n.func.value, env)
+            recv = self.ev(fnode.value, env)
             if recv != f[1] and recv[0] in ('obj', 'upd', 'mut'):
-                f = ('attr', recv, n.func.attr)
+                f = ('attr', recv, fnode.attr)
         args = tuple(self.ev(a, env) for a in n.args)
         kw = []
         for k in n.keywords:
@@ -1721,6 +1729,17 @@ class PE:
             op_ = {'xor': '^', 'and_': '&', 'or_': '|', 'add': '+', 'sub': '-', 'mul': '*', 'lshift': '<<', 'rshift': '>>',
                    'floordiv': '//', 'mod': '%'}[f[2]]
             return mk_bin(op_, args[0], args[1], self.opts)          # operator.xor(a, b) is a ^ b
+        if f[0] == 'attr' and f[2] == 'join' and is_c(f[1]) and f[1][1] in (b'', '') and len(args) == 1 and not kw \
+                and args[0][0] == '+' and all(x[0] in ('list', 'tuple', 'ite') for x in args[0][1]):
+            # an empty separator joins a concatenation piecewise
+            out = None
+            for x in args[0][1]:
+                px = self.call(f, (x,), (), env)
+                out = px if out is None else mk_bin('+', out, px, self.opts)
+            return out
+        if f[0] == 'attr' and f[2] == 'join' and is_c(f[1]) and f[1][1] in (b'', '') and len(args) == 1 and not kw \
+                and args[0][0] == 'ite' and args[0][2][0] in ('list', 'tuple') and args[0][3][0] in ('list', 'tuple'):
+            return mk_ite(args[0][1], self.call(f, (args[0][2],), (), env), self.call(f, (args[0][3],), (), env))
         if f[0] == 'attr' and f[2] == 'join' and is_c(f[1]) and f[1][1] in (b'', '') and len(args) == 1 and not kw \
                 and args[0][0] in ('list', 'tuple') and 1 <= len(args[0][1]) <= 16:
             if all(is_c(x_) for x_ in args[0][1]):
@@ -2097,11 +2116,18 @@ class PE:
             return False
         if isinstance(s, ast.Pass):
             return False
-        if isinstance(s, ast.Break):
-            effects.append(('break',))
-            return True
-        if isinstance(s, ast.Continue):
-            effects.append(('continue',))
+        if isinstance(s, (ast.Break, ast.Continue)):
+            # the values the loop's variables have at the jump (they are what the code after the loop / the next iteration sees)
+            st_ = []
+            if self.loop_stack:
+                L_, start_, names_ = self.loop_stack[-1]
+                for k_, v_ in enumerate(names_):
+                    cur_ = env.get(v_)
+                    if cur_ is not None and cur_ != start_.get(v_):
+                        key_ = start_[v_] if (v_ in start_ and start_[v_][0] == 'phi' and start_[v_][1] == L_) else ('jumplocal', L_, k_)
+                        st_.append(('set', key_, cur_))
+            kind_ = 'break' if isinstance(s, ast.Break) else 'continue'
+            effects.append((kind_, tuple(st_)) if st_ else (kind_,))
             return True
         if isinstance(s, (ast.Global, ast.Nonlocal)):
             return False
@@ -2279,7 +2305,7 @@ class PE:
         if not effs:
             return effs
         last = effs[-1]
-        if last[0] == 'continue':
+        if last == ('continue',):
             return self._strip_tail_continue(effs[:-1])
         if last[0] == 'if':
             a_ = self._strip_tail_continue(last[2])
@@ -2348,8 +2374,12 @@ class PE:
                 r = root(t)
                 if r:
                     out.append(r)
+        def dfs(n):         # source order: wrapping an assignment in a branch does not move it
+            yield n
+            for c in ast.iter_child_nodes(n):
+                yield from dfs(c)
         for st in stmts:
-            for n in ast.walk(st):
+            for n in dfs(st):
                 if isinstance(n, ast.Assign):
                     for t in n.targets:
                         tgt(t)
@@ -2446,8 +2476,10 @@ class PE:
         carried = [v for v in assigned if v in env and v not in tn]
         first = {}
         for n_ in ast.walk(ast.Module(body=list(s.body) + ([ast.Expr(value=s.test)] if kind == 'while' else []), type_ignores=[])):
-            if isinstance(n_, ast.Name) and n_.id not in first:
-                first[n_.id] = (getattr(n_, 'lineno', 0), getattr(n_, 'col_offset', 0))
+            if isinstance(n_, ast.Name):
+                pos_ = (getattr(n_, 'lineno', 0), getattr(n_, 'col_offset', 0))
+                if n_.id not in first or pos_ < first[n_.id]:
+                    first[n_.id] = pos_          # first occurrence in source order (nesting does not matter)
         carried.sort(key=lambda v: (skey(env[v]), first.get(v, (1 << 30, 0))))
         inits = tuple(env[v] for v in carried)
         env2 = dict(env)
@@ -2490,7 +2522,9 @@ class PE:
         body_eff = []
         save = (self.nloops, self.ntry, len(self.sm.funcs), list(self.sm.undefined))
         env_first = dict(env2)
+        self.loop_stack.append((L, dict(env2), list(assigned)))
         self.exec_block(s.body, env2, body_eff)
+        self.loop_stack.pop()
         nexts = tuple(env2.get(v, ('unbound', '?')) for v in carried)
         # induction variables: v' = v + k (k loop-invariant constant) over range(a, b, st) -> closed form
         if kind == 'for' and ((it[0] == 'range' and is_int(it[1]) and is_int(it[3]) and it[3][1] != 0) or it[0] != 'range') \
@@ -2558,12 +2592,16 @@ class PE:
                 else:
                     self.bind_pattern_syms(s.target, env2, itsym)
                 body_eff = []
+                self.loop_stack.append((L, dict(env2), list(assigned)))
                 self.exec_block(s.body, env2, body_eff)
+                self.loop_stack.pop()
                 n_it = None
                 try:
                     n_it = C(len(to_py(it)))
                 except NotConcrete:
                     n_it = ('call', ('b', 'len'), (it,), ())
+                if any(isinstance(n_, ast.Break) for st_ in s.body for n_ in ast.walk(st_)):
+                    n_it = ('done', L, 'num')        # a loop that may break: the iterations actually completed
                 old_inits = inits
                 for v, (rank, k, how) in ivs.items():
                     env2[v] = closed(rank, k, how, n_it)
@@ -3001,6 +3039,8 @@ class PE:
                 tg_ = tg_.value
             if isinstance(tg_, ast.Name):
                 self.inplace_updated.add(tg_.id)
+            if isinstance(n_, ast.Call) and isinstance(n_.func, ast.Name):
+                self.inplace_updated.add(n_.func.id)       # a local that is called: m = self.method keeps naming that method
         effects = self.sm.effects
         t = self.exec_block(fdef.body, env, effects)
         if not t:
